@@ -26,7 +26,7 @@ MIN_NONTRIVIAL = {"quick": 300, "thorough": 5000}
 
 
 def gen_cases(tier: str, seed: int) -> List[Dict[str, Any]]:
-    cases = gen_op_cases(PROPERTY, tier, seed, 1600, 40000)
+    cases = gen_op_cases(PROPERTY, tier, seed, 1600, 120000)
     n_prim = 2000 if tier == "quick" else 50000
     per = 50
     for i in range(n_prim // per):
